@@ -14,7 +14,7 @@ use crate::{
 use super::{
     error::{Error, Result},
     locale::{InterpolOrLit, LocalesOrNamespaces},
-    parsed_value::{ParsedValue, ParsedValueSeed},
+    parsed_value::{Fallbacks, ParsedValue, ParsedValueSeed},
     StringIndexer,
 };
 
@@ -390,11 +390,11 @@ impl Ranges {
         &self,
         values: &LocalesOrNamespaces,
         top_locale: &Key,
-        default_locale: &Key,
+        fallbacks: Fallbacks,
         path: &KeyPath,
     ) -> Result<()> {
         self.try_for_each_value(move |value| {
-            value.resolve_foreign_key(values, top_locale, default_locale, path)
+            value.resolve_foreign_key(values, top_locale, fallbacks, path)
         })
     }
 
